@@ -36,6 +36,8 @@ func runC08(c *Ctx) {
 	// (0) the store batch the collector writes into applies, on Commit, the LAST operation recorded per
 	// key: a Set removes the key's pending Delete, a Delete its pending Set, and each is recorded
 	checkBatchDisjoint(r, p)
+	// the collector reports "full" when the count equals the batch size, not one later
+	checkBatchSizeTrigger(r, p, pkg)
 	// (1)
 	checkGoWaitGroup(r, p, "wg/add-before-go", pkg, p.FuncDecl(pkg, "BatchedWriter", "startBatchWriter"), 1)
 	checkDoneOnAllExits(r, p, "wg/done-on-exit", pkg, p.FuncDecl(pkg, "BatchedWriter", "runBatchWriter"), "writeWg")
